@@ -45,7 +45,7 @@ def jobs(tier):
             out.append((dict(base, name="c09-noname-max{0}min{1}-op{2}".format(mx, mn, k)), full))
         # two enqueuing clients, from the constructed pool
         base = {"max": mx, "min": mn, "tasks": ["ret", "ret"], "clients": [["start", "enq0", "await0"], ["enq1", "await1"]],
-                "props": ["exactly_once", "results", "bounded"], "window_at": 0, "twin_prog": "progress"}
+                "props": ["exactly_once", "results", "bounded", "nodeadlock"], "window_at": 0, "twin_prog": "progress", "hold": [1]}
         out.append((dict(base, name="c09-twoclients-max{0}min{1}".format(mx, mn)), dict(full, depth=14 if not thorough else 18)))
     if thorough:
         # the same windows reached through a second history (workers scheduled first in the prefix)
